@@ -46,129 +46,74 @@ static int find_obs(cv_i32 v, int *cnt) { int pos = -1; int c = 0; for (int p = 
   if ((k) > 1) { pb = find_obs(b, &c_); __CPROVER_assert(c_ == 1, "every value a source yields is observed exactly once (2nd value)"); \
                  __CPROVER_assert(pa < pb, "values of one source are observed in that source's order"); } } while (0)
 
-#if defined(DRIVE_aggr) || defined(DRIVE_aggr_throw) || defined(DRIVE_aggr_early)
-#ifndef AGG_N
-#define AGG_N 2
-#endif
-#ifndef AGG_STYLE
-#define AGG_STYLE 0
-#endif
-#define KMAX(i) (AGG_N > (i) ? 2 : 0)
-#endif
-
-/* ---- all sources finite and well-behaved: every combination of lengths 0..2 */
+/* a unit runs a list of shapes: { n, style (0 next()/value(), 1 call-to-future), stop (-1: read to the end, else destroy the aggregate after
+ * `stop` values), kind0, k0, kind1, k1, kind2, k2 }   kind 0: source yields k values and ends; kind 1: yields k values, then throws e */
 #ifdef DRIVE_aggr
+struct shape { cv_i32 n, style, stop, kind0, k0, kind1, k1, kind2, k2; };
+static const struct shape SH[] = { AGG_SHAPES };
+#define NSH ((int)(sizeof(SH) / sizeof(SH[0])))
 void h_drive(void) {
   unsigned runs = 0;
-  for (cv_i32 k0 = 0; k0 <= KMAX(0); k0++) for (cv_i32 k1 = 0; k1 <= KMAX(1); k1++) for (cv_i32 k2 = 0; k2 <= KMAX(2); k2++) {
+  for (int s = 0; s < NSH; s++) {
+    const cv_i32 n = SH[s].n, stop = SH[s].stop; const cv_i32 kind[3] = {SH[s].kind0, SH[s].kind1, SH[s].kind2}, k[3] = {SH[s].k0, SH[s].k1, SH[s].k2};
     drive_reset(); unsigned vec0 = gh_vec_attached;
-    cv_i32 a0 = SYM(0, 0), b0 = SYM(0, 1), a1 = SYM(1, 0), b1 = SYM(1, 1), a2 = SYM(2, 0), b2 = SYM(2, 1);
-    drive_aggr(AGG_N, AGG_STYLE, -1, 0, k0, a0, b0, 0, k1, a1, b1, 0, k2, a2, b2, 0);
+    cv_i32 a[3], b[3]; for (int i = 0; i < 3; i++) { a[i] = SYM(i, 0); b[i] = SYM(i, 1); } cv_i32 e = nondet_int();
+    drive_aggr(n, SH[s].style, stop, kind[0], k[0], a[0], b[0], kind[1], k[1], a[1], b[1], kind[2], k[2], a[2], b[2], e);
     NO_STRAY;
-    int total = (AGG_N > 0 ? k0 : 0) + (AGG_N > 1 ? k1 : 0) + (AGG_N > 2 ? k2 : 0);
-    __CPROVER_assert(NOBS == total, "the aggregate yields exactly as many values as its sources together (multiset union: nothing lost, nothing invented)");
-    int pa = -1, pb = -1;
-    if (AGG_N > 0) CHECK_SOURCE(0, k0, a0, b0, pa, pb);
-    if (AGG_N > 1) CHECK_SOURCE(1, k1, a1, b1, pa, pb);
-    if (AGG_N > 2) CHECK_SOURCE(2, k2, a2, b2, pa, pb);
-    __CPROVER_assert(END == 1 && *G_EXC_N == 0, "the aggregate ends when - and only when - all sources have ended; one end indication");
-    __CPROVER_assert(*G_CTOR == AGG_N && *G_DTOR == AGG_N, "every source ran and its locals were destroyed exactly once");
-    CHECK_HEAP(AGG_N + 1);
+    int total = 0, throwing = 0; for (int i = 0; i < 3; i++) if (i < n) { total += k[i]; throwing += kind[i]; }
+    if ((cv_s32)stop < 0) {
+      __CPROVER_assert(NOBS == total, "multiset union: the aggregate yields exactly as many values as its sources together - nothing lost (also not by a source's exception), nothing invented");
+      for (int i = 0; i < 3; i++) if (i < n) { int pa = -1, pb = -1; CHECK_SOURCE(i, k[i], a[i], b[i], pa, pb); }
+      if (throwing) {
+        __CPROVER_assert(*G_EXC_N == 1 && *G_EXC_VAL == e, "the source's exception is reported to the consumer, exactly once");
+        __CPROVER_assert(*G_EXC_AT == total && END == 0, "the exception is the last thing the consumer sees (after every value of every source); no regular end on top of it"); }
+      else __CPROVER_assert(END == 1 && *G_EXC_N == 0, "the aggregate ends when - and only when - all sources have ended; exactly one end indication"); }
+    else {
+      __CPROVER_assert(NOBS == stop && END == 0 && *G_EXC_N == 0, "the consumer saw exactly the values it asked for before dropping the aggregate");
+      int seen = 0;
+      for (int i = 0; i < 3; i++) if (i < n) { int c0 = 0, c1 = 0; int pa_ = find_obs(a[i], &c0); int pb_ = find_obs(b[i], &c1);
+        __CPROVER_assert(c0 <= (k[i] > 0) && c1 <= (k[i] > 1), "only yielded values are delivered, none twice");
+        __CPROVER_assert(c1 == 0 || (c0 == 1 && pa_ < pb_), "a source's 2nd value is never seen before its 1st");
+        seen += c0 + c1; }
+      __CPROVER_assert(seen == stop, "every observed value is a value some source yielded"); }
+    int started = stop != 0 ? n : 0;             /* never asked: the aggregator body never ran, no source was ever activated */
+    __CPROVER_assert(*G_CTOR == started && *G_DTOR == started, "every activated source's locals are destroyed exactly once (also when the parked aggregate is dropped)");
+    CHECK_HEAP(n + 1);
     runs++; }
-  __CPROVER_assert(runs == (KMAX(0) + 1) * (KMAX(1) + 1) * (KMAX(2) + 1), "drive: every shape was run");
+  __CPROVER_assert(runs == NSH, "drive: every shape was run");
   __CPROVER_assert(0, "SENTINEL reachable: all shapes completed"); }
 #endif
 
-/* ---- one source (index w) throws e after pos values; the others have length OTHER_K */
-#ifdef DRIVE_aggr_throw
-#ifndef OTHER_K
-#define OTHER_K 2
-#endif
-void h_drive(void) {
-  unsigned runs = 0;
-  for (cv_i32 w = 0; w < AGG_N; w++) for (cv_i32 pos = 0; pos <= 2; pos++) for (cv_i32 ko = 0; ko <= OTHER_K; ko++) {
-    if (AGG_N == 1 && ko > 0) continue;
-    drive_reset(); unsigned vec0 = gh_vec_attached;
-    cv_i32 a0 = SYM(0, 0), b0 = SYM(0, 1), a1 = SYM(1, 0), b1 = SYM(1, 1), a2 = SYM(2, 0), b2 = SYM(2, 1); cv_i32 e = nondet_int();
-    cv_i32 k0 = w == 0 ? pos : ko, k1 = w == 1 ? pos : ko, k2 = w == 2 ? pos : ko;
-    drive_aggr(AGG_N, AGG_STYLE, -1, w == 0, k0, a0, b0, w == 1, k1, a1, b1, w == 2, k2, a2, b2, e);
-    NO_STRAY;
-    int total = (AGG_N > 0 ? k0 : 0) + (AGG_N > 1 ? k1 : 0) + (AGG_N > 2 ? k2 : 0);
-    __CPROVER_assert(NOBS == total, "a source's exception loses no value: everything yielded by every source (the failing one included) is observed");
-    int pa = -1, pb = -1;
-    if (AGG_N > 0) CHECK_SOURCE(0, k0, a0, b0, pa, pb);
-    if (AGG_N > 1) CHECK_SOURCE(1, k1, a1, b1, pa, pb);
-    if (AGG_N > 2) CHECK_SOURCE(2, k2, a2, b2, pa, pb);
-    __CPROVER_assert(*G_EXC_N == 1 && *G_EXC_VAL == e, "the source's exception is reported to the consumer, exactly once");
-    __CPROVER_assert(*G_EXC_AT == total && END == 0, "the exception is the last thing the consumer sees (after all values of all sources); no regular end on top of it");
-    __CPROVER_assert(*G_CTOR == AGG_N && *G_DTOR == AGG_N, "every source ran and its locals were destroyed exactly once");
-    CHECK_HEAP(AGG_N + 1);
-    runs++; }
-  __CPROVER_assert(runs == (AGG_N == 1 ? 3 : AGG_N * 3 * (OTHER_K + 1)), "drive: every shape was run");
-  __CPROVER_assert(0, "SENTINEL reachable: all shapes completed"); }
-#endif
-
-/* ---- early destruction: sources of length EARLY_K each, aggregate dropped after stop = 0..total values */
-#ifdef DRIVE_aggr_early
-#ifndef EARLY_K
-#define EARLY_K 2
-#endif
-void h_drive(void) {
-  unsigned runs = 0;
-  for (cv_i32 stop = 0; stop <= AGG_N * EARLY_K; stop++) {
-    drive_reset(); unsigned vec0 = gh_vec_attached;
-    cv_i32 a0 = SYM(0, 0), b0 = SYM(0, 1), a1 = SYM(1, 0), b1 = SYM(1, 1), a2 = SYM(2, 0), b2 = SYM(2, 1);
-    drive_aggr(AGG_N, AGG_STYLE, stop, 0, EARLY_K, a0, b0, 0, EARLY_K, a1, b1, 0, EARLY_K, a2, b2, 0);
-    NO_STRAY;
-    __CPROVER_assert(NOBS == stop && END == 0 && *G_EXC_N == 0, "the consumer saw exactly the values it asked for");
-    /* what was observed: distinct yields, each source's prefix in order */
-    int c0, c1; int seen = 0;
-#define CHECK_PREFIX(i, a, b) if (AGG_N > (i)) { int pa_ = find_obs(a, &c0); int pb_ = find_obs(b, &c1); \
-      __CPROVER_assert(c0 <= 1 && c1 <= 1, "no value is delivered twice"); if (EARLY_K > 1) __CPROVER_assert(c1 == 0 || (c0 == 1 && pa_ < pb_), "a source's 2nd value is never seen before its 1st"); seen += c0 + (EARLY_K > 1 ? c1 : 0); }
-    CHECK_PREFIX(0, a0, b0) CHECK_PREFIX(1, a1, b1) CHECK_PREFIX(2, a2, b2)
-    __CPROVER_assert(seen == stop, "every observed value is a value some source yielded");
-    int started = stop > 0 ? AGG_N : 0;        /* never asked: the aggregator body never ran, no source was ever activated */
-    __CPROVER_assert(*G_CTOR == started && *G_DTOR == started, "destroying the parked aggregate destroys the locals of every source exactly once");
-    CHECK_HEAP(AGG_N + 1);
-    runs++; }
-  __CPROVER_assert(runs == AGG_N * EARLY_K + 1, "drive: every shape was run");
-  __CPROVER_assert(0, "SENTINEL reachable: all shapes completed"); }
-#endif
-
-/* ---- sources with argument: the first call's argument initialises every source, each later argument goes to the source whose value
- *      was returned last */
+/* ---- sources with argument: shapes { n, style, k0, k1 }.  The first call's argument initialises every source, each later argument goes
+ *      to the source whose value was returned last */
 #ifdef DRIVE_aggr_arg
-#ifndef AGG_N
-#define AGG_N 2
-#endif
-#ifndef AGG_STYLE
-#define AGG_STYLE 0
-#endif
-#define KMAXA(i) (AGG_N > (i) ? 2 : 0)
+struct shape { cv_i32 n, style, k0, k1; };
+static const struct shape SH[] = { AGG_SHAPES };
+#define NSH ((int)(sizeof(SH) / sizeof(SH[0])))
 #define ARG_SRC(i) ((*G_ARG_SRC)[i])
 #define ARG_VAL(i) ((*G_ARG_VAL)[i])
 /* j-th argument received by source id (j = 0: first activation) */
-static int nth_arg(int id, int j, cv_i32 *out) { int c = 0; for (int i = 0; i < 12; i++) if (i < (int)*G_NARGS && ARG_SRC(i) == id) { if (c == j) { *out = ARG_VAL(i); return 1; } c++; } return 0; }
+static int nth_arg(int id, int j, cv_i32 *out) { int c = 0; int found = 0; for (int i = 0; i < 8; i++) if (i < (int)*G_NARGS && ARG_SRC(i) == id) { if (c == j) { *out = ARG_VAL(i); found = 1; } c++; } return found; }
 void h_drive(void) {
   unsigned runs = 0;
-  for (cv_i32 k0 = 0; k0 <= KMAXA(0); k0++) for (cv_i32 k1 = 0; k1 <= KMAXA(1); k1++) {
+  for (int s = 0; s < NSH; s++) {
+    const cv_i32 n = SH[s].n; const cv_i32 k[2] = {SH[s].k0, SH[s].k1};
     drive_reset(); unsigned vec0 = gh_vec_attached;
-    cv_i32 a0 = SYM(0, 0), b0 = SYM(0, 1), a1 = SYM(1, 0), b1 = SYM(1, 1); cv_i32 x[5]; for (int j = 0; j < 5; j++) x[j] = nondet_int();
-    drive_aggr_arg(AGG_N, AGG_STYLE, k0, a0, b0, k1, a1, b1, x[0], x[1], x[2], x[3], x[4]);
+    cv_i32 a[2], b[2]; for (int i = 0; i < 2; i++) { a[i] = SYM(i, 0); b[i] = SYM(i, 1); } cv_i32 x[6]; for (int j = 0; j < 6; j++) x[j] = nondet_int();
+    drive_aggr_arg(n, SH[s].style, k[0], a[0], b[0], k[1], a[1], b[1], x[0], x[1], x[2], x[3], x[4]);
     NO_STRAY;
-    int total = (AGG_N > 0 ? k0 : 0) + (AGG_N > 1 ? k1 : 0);
+    int total = 0; for (int i = 0; i < 2; i++) if (i < n) total += k[i];
     __CPROVER_assert(NOBS == total && END == 1 && *G_EXC_N == 0, "multiset union and a single end, also for sources with argument");
-    __CPROVER_assert(*G_NARGS == total + AGG_N, "every source is activated once per value it yields plus once to find its end");
-    cv_i32 ks[2] = {k0, k1}, as[2] = {a0, a1}, bs[2] = {b0, b1};
-    for (int i = 0; i < 2; i++) if (i < AGG_N) {
-      int pa = -1, pb = -1; CHECK_SOURCE(i, ks[i], as[i], bs[i], pa, pb);
-      cv_i32 got;
+    __CPROVER_assert(*G_NARGS == total + n && *G_NARGS <= 8, "every source is activated once per value it yields plus once to find its end");
+    for (int i = 0; i < 2; i++) if (i < n) {
+      int pa = -1, pb = -1; CHECK_SOURCE(i, k[i], a[i], b[i], pa, pb);
+      cv_i32 got = 0;
       __CPROVER_assert(nth_arg(i, 0, &got) && got == x[0], "the first call's argument initialises every source");
-      if (ks[i] > 0) __CPROVER_assert(nth_arg(i, 1, &got) && got == x[pa + 1], "an argument goes to the source whose value was returned last (after its 1st value)");
-      if (ks[i] > 1) __CPROVER_assert(nth_arg(i, 2, &got) && got == x[pb + 1], "an argument goes to the source whose value was returned last (after its 2nd value)"); }
-    __CPROVER_assert(*G_CTOR == AGG_N && *G_DTOR == AGG_N, "every source ran and its locals were destroyed exactly once");
-    CHECK_HEAP(AGG_N + 1);
+      if (k[i] > 0) __CPROVER_assert(nth_arg(i, 1, &got) && got == x[pa + 1], "an argument goes to the source whose value was returned last (after its 1st value)");
+      if (k[i] > 1) __CPROVER_assert(nth_arg(i, 2, &got) && got == x[pb + 1], "an argument goes to the source whose value was returned last (after its 2nd value)"); }
+    __CPROVER_assert(*G_CTOR == n && *G_DTOR == n, "every source ran and its locals were destroyed exactly once");
+    CHECK_HEAP(n + 1);
     runs++; }
-  __CPROVER_assert(runs == (KMAXA(0) + 1) * (KMAXA(1) + 1), "drive: every shape was run");
+  __CPROVER_assert(runs == NSH, "drive: every shape was run");
   __CPROVER_assert(0, "SENTINEL reachable: all shapes completed"); }
 #endif
